@@ -602,6 +602,32 @@ func (t *tokenizer) skipBlobHelper() error {
 		return err
 	}
 
+	// A clob holds one short string or a run of long strings; a '}' inside
+	// the quotes is content, not the end of the lob.
+	switch c {
+	case '"':
+		if err := t.skipStringHelper(); err != nil {
+			return err
+		}
+		if c, _, err = t.skipLobWhitespace(); err != nil {
+			return err
+		}
+
+	case '\'':
+		ok, err := t.IsTripleQuote()
+		if err != nil {
+			return err
+		}
+		if ok {
+			if err := t.skipLongStringHelper(stopForCommentsHandler); err != nil {
+				return err
+			}
+			if c, _, err = t.skipLobWhitespace(); err != nil {
+				return err
+			}
+		}
+	}
+
 	// https://github.com/amzn/ion-go/issues/115
 	for c != '}' {
 		c, _, err = t.skipLobWhitespace()
